@@ -206,3 +206,23 @@ def register6(E):
         if r.v == 'NoElements': return NONE()
         if r.v == 'OneElement': return SOME(Agg([r.f[0], e.copy_val(r.f[0])], 'tup'))
         return SOME(Agg([r.f[0], r.f[1]], 'tup'))
+
+    # ---------------------------------------------------------------- <[T]>::as_chunks::<N>  ->  (&[[T; N]], &[T])
+    @R(r'^core::slice::<impl \[.*\]>::as_chunks::<(\d+)>$')
+    def _(e, c, a):
+        from .engine import SliceRef
+        n = int(re.search(r'as_chunks::<(\d+)>$', c).group(1)); l, lo, hi = E.bl(a[0]); items = l[lo:hi]
+        full = len(items) // n
+        chunks = [Agg(list(items[i * n:(i + 1) * n]), 'arr') for i in range(full)]
+        return Agg([SliceRef(chunks), SliceRef(l, lo + full * n, hi)], 'tup')
+
+    # ---------------------------------------------------------------- Itertools::at_most_one / exactly_one
+    @R(r' as Itertools>::(at_most_one|exactly_one)$')
+    def _(e, c, a):
+        from .engine import OK, ERR
+        xs = E.drain_iter(E.it_of(a[0]))
+        if c.endswith('at_most_one'):
+            if len(xs) == 0: return OK(NONE())
+            if len(xs) == 1: return OK(SOME(xs[0]))
+        elif len(xs) == 1: return OK(xs[0])
+        return ERR(It('list', l=list(xs), pos=0))          # ExactlyOneError: an iterator over the items
